@@ -55,4 +55,12 @@ TABLE = {
         "note": _NOTE + " 'Exactly once' as a count over histories is reduced to once-flag + must-finalize; garbage-collection timing is not modelled. One recorded known finding (K4c).",
         "technique": "typestate / must-release dataflow on a statement CFG with exceptional edges, flag-specialised on the ownership parameter; dominance checks",
     },
+    "C16": {
+        "text": "The laws behind the property as effects and agreements over all methods: no non-constructor method of the immutable classes stores to an existing "
+                "object or calls a mutator on a non-fresh container; shared default tables are only ever bound to MappingProxyType over freshly built mappings; the "
+                "interning conditions of __new__ and __init__ agree and both early returns dominate the single (re)initialisation; precedence is the order of three "
+                "writes with the compatibility test before each write; hash cells are a subset of eq cells; metaclass rejections precede class creation.",
+        "note": _NOTE + " Outcomes for arbitrary class trees (metaclass execution) are not decided.",
+        "technique": "effect/freshness analysis per method, who-may-bind tables, dominance by statement order, sibling-condition agreement, hash/eq cell-set inclusion",
+    },
 }
